@@ -149,7 +149,12 @@ def check_bare_names(prog: Program, res: Results, rid: str) -> None:
     res.analysed_functions.add(fa.key)
     cfg = CFG(fa.node)
     pname = fa.params()[0]
-    bare_returns = [n for n in cfg.nodes if n.kind == "return" and dotted(n.ast.value) == f"{pname}.name"]
+    from sa.util import Aliases
+    al = Aliases(fa.node)
+
+    def xd(x):  # dotted text after expanding locals that merely name an attribute (`name = segment.name`)
+        return dotted(al.expand(x))
+    bare_returns = [n for n in cfg.nodes if n.kind == "return" and xd(n.ast.value) == f"{pname}.name"]
     r.instances += len(bare_returns)
     if not bare_returns:
         res.unclass("_format_attr_name: no `return <segment>.name` (bare form) found")
@@ -172,7 +177,7 @@ def check_bare_names(prog: Program, res: Results, rid: str) -> None:
 
     def not_keyword(a, truth):
         # `<seg>.name in TABLE` false, or `<seg>.name not in TABLE` true, TABLE ⊇ keywords; also keyword.iskeyword-like helpers
-        if isinstance(a, ast.Compare) and len(a.ops) == 1 and dotted(a.left) == f"{pname}.name":
+        if isinstance(a, ast.Compare) and len(a.ops) == 1 and xd(a.left) == f"{pname}.name":
             tbl = a.comparators[0]
             vals = None
             if isinstance(tbl, ast.Name):
@@ -185,11 +190,14 @@ def check_bare_names(prog: Program, res: Results, rid: str) -> None:
         return False
 
     def matches_regex(a, truth):
+        if isinstance(a, ast.Compare) and len(a.ops) == 1 and isinstance(a.comparators[0], ast.Constant) and a.comparators[0].value is None \
+                and isinstance(a.ops[0], (ast.Is, ast.IsNot)):
+            a, truth = a.left, (truth if isinstance(a.ops[0], ast.IsNot) else not truth)  # `m is not None` == the pattern matched
         return isinstance(a, ast.Call) and isinstance(a.func, ast.Attribute) and dotted(a.func.value) == "_NPATH_IDENTIFIER_RE" \
-            and a.args and dotted(a.args[0]) == f"{pname}.name" and truth is True
+            and a.args and xd(a.args[0]) == f"{pname}.name" and truth is True
 
     def not_quoted(a, truth):
-        return dotted(a) == f"{pname}.quoted" and truth is False
+        return xd(a) == f"{pname}.quoted" and truth is False
 
     e_kw = edges_establishing(cfg, not_keyword)
     e_re = edges_establishing(cfg, matches_regex)
@@ -226,7 +234,7 @@ def check_bare_names(prog: Program, res: Results, rid: str) -> None:
                 ds = assignments_to(fa.node, inner.id)
                 inner = ds[0].value if len(ds) == 1 and isinstance(ds[0], ast.Assign) else None
             if isinstance(inner, ast.Call) and callee(inner) == "_escape_nix_string" and inner.args and \
-                    dotted(inner.args[0]) == f"{pname}.name" and any(k.arg == "escape_interpolation" and is_const(k.value, True) for k in inner.keywords):
+                    xd(inner.args[0]) == f"{pname}.name" and any(k.arg == "escape_interpolation" and is_const(k.value, True) for k in inner.keywords):
                 ok = True
         r.ob(ok, {"quoted_return": norm(q.ast)[:80]})
         if not ok:
@@ -299,14 +307,39 @@ def foreign_encoders(fn: ast.AST):
     return out
 
 
+def _pieces(path, sink_methods=("append",)):
+    """text pieces a path of a per-character loop emits: arguments of <list>.append(...) and `<str> += ...`"""
+    out = []
+    for a in path.actions:
+        if a[0] == "call" and a[1].split(".")[-1] in sink_methods and a[2]:
+            out.append(a[2][0])
+        elif a[0] == "aug" and isinstance(a[2], str):
+            out.append(a[2])
+    return out
+
+
+def _conj_atoms(test: ast.AST, truth: bool):
+    t, neg = strip_not(test)
+    if neg:
+        truth = not truth
+    if isinstance(t, ast.BoolOp) and ((isinstance(t.op, ast.And) and truth) or (isinstance(t.op, ast.Or) and not truth)):
+        for v in t.values:
+            yield from _conj_atoms(v, truth)
+    else:
+        yield t, truth
+
+
 def check_writer(prog: Program, res: Results, rid: str) -> dict:
+    """The escaper is specialised per character (sa/charmachine.py): whatever its spelling (if/elif chain, lookup table,
+    nested ifs), the text it emits for each character of the alphabet is read off and compared with Nix's lexer."""
+    from sa.charmachine import UNKNOWN, Machine, char_loop, module_constants, preloop_constants
     r = res.rule(rid, "writer/reader escape tables: every character special inside a Nix string is escaped, each emitted "
                  "escape decodes to the original character, `${` is escaped exactly when requested, the NPath reader "
                  "decodes what the documentation promises", floor=6)
     ef = prog.func("_escape_nix_string")
     res.analysed_functions.add(ef.key)
-    w = extract_writer_table(ef.node)
-    if w is None:
+    cl = char_loop(ef.node)
+    if cl is None:
         foreign = foreign_encoders(ef.node)
         r.instances += 1
         for c, (name, why) in foreign:
@@ -314,88 +347,111 @@ def check_writer(prog: Program, res: Results, rid: str) -> dict:
             res.add(rid, ("_escape_nix_string", "escaping delegated to a foreign encoder", name), ef.loc(c),
                     f"_escape_nix_string delegates to `{norm(c)[:60]}`: {why}")
         if not foreign:
-            res.unclass("_escape_nix_string: the per-character if/elif chain was not found")
+            res.unclass("_escape_nix_string: no per-character loop was found")
         return {}
-    table = w["table"]
+    loop, chv, idxv, src, body = cl
+    m = Machine(module_constants(prog, ef.module), cursor=(src, idxv) if idxv else None)
+    init = preloop_constants(ef.node, loop)
+    init.pop(idxv, None)
+    flag = ef.node.args.kwonlyargs[0].arg if ef.node.args.kwonlyargs else "escape_interpolation"
+
+    def run(c, **extra):
+        return [p for p in m.run(body, {**init, chv: c, "@ch": c, **extra}) if p.exit != "raise"]
+
+    table = {}
+    alphabet = list(NIX_SPECIAL) + ["\n", "\t", "{", "}", "'", " ", "a", "Z", "0", "\x00", "\u00e9"]
+    for ch in alphabet:
+        paths = run(ch)
+        outs = {tuple(_pieces(p)) if all(isinstance(x, str) for x in _pieces(p)) else None for p in paths}
+        if None in outs or not outs:
+            res.unclass(f"_escape_nix_string: the text emitted for {ch!r} is not a constant on some path")
+            return {}
+        joined = {"".join(o) for o in outs}
+        if len(joined) != 1:
+            res.add(rid, ("_escape_nix_string", "escape depends on context", repr(ch)), ef.loc(loop),
+                    f"{ch!r} is written as one of {sorted(joined)} depending on tests that do not concern the character")
+            continue
+        table[ch] = joined.pop()
     r.instances += len(table)
     for ch, why in NIX_SPECIAL.items():
-        ok = ch in table
+        ok = ch in table and table[ch] != ch
         r.ob(ok, {"special": repr(ch), "escaped_as": table.get(ch)})
-        if not ok:
-            res.add(rid, ("_escape_nix_string", "special character not escaped", repr(ch)), ef.loc(w["chain"]),
+        if not ok and ch in table:
+            res.add(rid, ("_escape_nix_string", "special character not escaped", repr(ch)), ef.loc(loop),
                     f"{ch!r} is written unescaped although it {why}")
     for ch, emitted in table.items():
+        if emitted == ch and ch in NIX_SPECIAL:
+            continue
         dec = nix_decode_escape(emitted)
         ok = dec == ch
         r.ob(ok, {"char": repr(ch), "emitted": emitted, "nix_reads": repr(dec)})
         if not ok:
-            res.add(rid, ("_escape_nix_string", "escape decodes differently", repr(ch)), ef.loc(w["chain"]),
-                    f"{ch!r} is written as {emitted!r}, which Nix reads back as {dec!r}")
-    # default arm: appends the character itself
-    d_ok = False
-    if w["default"]:
-        apps = [c for s in w["default"] for c in ast.walk(s) if isinstance(c, ast.Call) and callee(c) == "append"]
-        d_ok = len(apps) == 1 and isinstance(apps[0].args[0], ast.Name)
-    r.ob(d_ok, {"default_arm": "append(ch)"})
-    if not d_ok:
-        res.add(rid, ("_escape_nix_string", "default arm"), ef.loc(w["chain"]),
-                "the default arm of the escaper does not append the character unchanged")
-    # interpolation arm
+            if ch in ("a", "Z", "0", " ", "\x00", "\u00e9", "{", "}", "'"):
+                res.add(rid, ("_escape_nix_string", "default arm"), ef.loc(loop),
+                        "the default arm of the escaper does not append the character unchanged")
+            else:
+                res.add(rid, ("_escape_nix_string", "escape decodes differently", repr(ch)), ef.loc(loop),
+                        f"{ch!r} is written as {emitted!r}, which Nix reads back as {dec!r}")
+    # interpolation: `$` followed by `{` is escaped exactly when the flag asks for it
     r.instances += 1
-    if w["interp"] is None:
-        res.add(rid, ("_escape_nix_string", "no interpolation arm"), ef.loc(w["chain"]),
+    off = run("$", **{flag: False})
+    bad_off = [p for p in off if _pieces(p) != ["$"]]
+    on = run("$", **{flag: True})
+    emitting = [p for p in on if _pieces(p) != ["$"]]
+    if not emitting:
+        res.add(rid, ("_escape_nix_string", "no interpolation arm"), ef.loc(loop),
                 "`${` is never escaped: an attribute name containing `${` would become an interpolation")
     else:
-        node, test, appended = w["interp"]
-        conj = []
-
-        def flat(e):
-            if isinstance(e, ast.BoolOp) and isinstance(e.op, ast.And):
-                for v in e.values:
-                    flat(v)
-            else:
-                conj.append(e)
-
-        flat(test)
-        flag = ef.node.args.kwonlyargs[0].arg if ef.node.args.kwonlyargs else "escape_interpolation"
-        seen_flag = False
-        seen_dollar = False
+        env0 = {**init, chv: "$", "@ch": "$", flag: True}
         seen_brace = False
-        for c in conj:
-            t = norm(c)
-            if isinstance(c, ast.Name) and c.id == flag:
-                seen_flag = True
-            elif isinstance(c, ast.Compare) and is_const(c.comparators[0], "$") and isinstance(c.ops[0], ast.Eq):
-                seen_dollar = True
-            elif isinstance(c, ast.Compare) and is_const(c.comparators[0], "{") and isinstance(c.ops[0], ast.Eq) \
-                    and isinstance(c.left, ast.Subscript) and "+ 1" in norm(c.left.slice):
-                seen_brace = True
-            elif isinstance(c, ast.Call) and callee(c) == "startswith" and c.args and is_const(c.args[0], "${"):
-                seen_dollar = seen_brace = True
-            elif isinstance(c, ast.Compare) and isinstance(c.ops[0], (ast.Lt, ast.LtE)) and "len(" in t and "+ 1" in t:
-                pass  # bounds check implied by the lookahead
-            else:
-                r.ob(False, {"interpolation_arm_extra_condition": t})
-                res.add(rid, ("_escape_nix_string", "interpolation arm extra condition", t), ef.loc(c),
-                        f"escaping of `${{` is additionally conditioned on `{t}`: for some names `${{` is written "
-                        f"unescaped and Nix reads an interpolation")
-        ok = seen_flag and seen_dollar and seen_brace
-        r.ob(ok, {"interpolation_arm": norm(test)[:100]})
+        for p in emitting:
+            for test, truth in p.decisions:
+                for c, tv in _conj_atoms(test, truth):
+                    if m.ev(c, env0) is not UNKNOWN:
+                        continue
+                    t = norm(c)
+                    look = (isinstance(c, ast.Compare) and len(c.ops) == 1 and m.ev(c.comparators[0], env0) == "{" and isinstance(c.ops[0], ast.Eq)
+                            and isinstance(c.left, ast.Subscript) and "+ 1" in norm(c.left.slice)) or \
+                           (isinstance(c, ast.Call) and callee(c) == "startswith" and c.args and m.ev(c.args[0], env0) == "${") or \
+                           (isinstance(c, ast.Compare) and len(c.ops) == 1 and isinstance(c.ops[0], ast.Eq) and m.ev(c.comparators[0], env0) == "${"
+                            and isinstance(c.left, ast.Subscript) and isinstance(c.left.slice, ast.Slice))
+                    if look and tv:
+                        seen_brace = True
+                    elif isinstance(c, ast.Compare) and isinstance(c.ops[0], (ast.Lt, ast.LtE, ast.Gt, ast.GtE)) and "len(" in t:
+                        pass  # bounds check implied by the lookahead
+                    elif isinstance(c, ast.Name) and init.get(c.id) is False:
+                        pass  # a skip flag of the loop itself
+                    else:
+                        r.ob(False, {"interpolation_arm_extra_condition": t})
+                        res.add(rid, ("_escape_nix_string", "interpolation arm extra condition", t), ef.loc(c),
+                                f"escaping of `${{` is additionally conditioned on `{t}`: for some names `${{` is written "
+                                f"unescaped and Nix reads an interpolation")
+        ok = seen_brace and not bad_off
+        r.ob(ok, {"interpolation_arm": "flag and `$` followed by `{`", "escapes_without_flag": len(bad_off)})
         if not ok:
-            res.add(rid, ("_escape_nix_string", "interpolation arm condition"), ef.loc(test),
+            res.add(rid, ("_escape_nix_string", "interpolation arm condition"), ef.loc(loop),
                     "the interpolation arm does not test <flag> and `$` followed by `{`")
-        emitted = [a.args[0].value for a in appended if a.args and isinstance(a.args[0], ast.Constant)]
+        emitted = sorted({"".join(x if isinstance(x, str) else "?" for x in _pieces(p)) for p in emitting})
         ok = emitted == ["\\${"]
         r.ob(ok, {"interpolation_emitted": emitted})
         if not ok:
-            res.add(rid, ("_escape_nix_string", "interpolation escape text"), ef.loc(node),
+            res.add(rid, ("_escape_nix_string", "interpolation escape text"), ef.loc(loop),
                     f"the interpolation arm emits {emitted!r}, expected ['\\\\${{']")
-        skips = [s for s in ast.walk(node) if isinstance(s, ast.AugAssign) and isinstance(s.value, ast.Constant)]
-        body_skip = [s for s in node.body if isinstance(s, ast.AugAssign)]
-        ok = bool(body_skip) and body_skip[0].value.value == 2 and any(isinstance(s, ast.Continue) for s in node.body)
-        r.ob(ok, {"interpolation_skip": [norm(s) for s in body_skip]})
-        if not ok:
-            res.add(rid, ("_escape_nix_string", "interpolation arm advance"), ef.loc(node),
+        # both characters are consumed: `index += 2; continue`, or a skip flag that makes the next iteration emit nothing
+        adv_ok = True
+        for p in emitting:
+            jumps = [a for a in p.actions if a[0] == "aug" and a[1] == idxv and a[2] == 2]
+            skip_flags = [a[1] for a in p.actions if a[0] == "assign" and a[2] is True and init.get(a[1]) is False]
+            via_flag = False
+            for sf in skip_flags:
+                nxt = run("{", **{sf: True})
+                if nxt and all(not _pieces(q) and False in q.assigned(sf) for q in nxt):
+                    via_flag = True
+            if not ((jumps and p.exit == "continue") or via_flag):
+                adv_ok = False
+        r.ob(adv_ok, {"interpolation_consumes_both_characters": adv_ok})
+        if not adv_ok:
+            res.add(rid, ("_escape_nix_string", "interpolation arm advance"), ef.loc(loop),
                     "the interpolation arm does not consume both characters (`index += 2; continue`): `{` would be emitted twice or re-examined")
     # the result is the join of the pieces
     rets = [n for n in walk_no_nested(ef.node) if isinstance(n, ast.Return)]
@@ -406,52 +462,68 @@ def check_writer(prog: Program, res: Results, rid: str) -> dict:
     return table
 
 
+def npath_scanner(prog: Program):
+    """the NPath reader as a character machine with its state flags identified by what they do, not by their names:
+    -> (func, machine, body, char var, initial flags, quote flag, escape flag, loop)"""
+    from sa.charmachine import Machine, char_loop, module_constants, preloop_constants
+    pf = prog.func("_parse_npath")
+    cl = char_loop(pf.node)
+    if cl is None:
+        return None
+    loop, chv, idxv, src, body = cl
+    m = Machine(module_constants(prog, pf.module))
+    init = {k: v for k, v in preloop_constants(pf.node, loop).items() if isinstance(v, bool)}
+
+    def run(c, **flags):
+        return m.run(body, {**init, chv: c, **flags})
+
+    q = e = None
+    for p in run('"'):
+        if p.exit != "raise":
+            for a in p.actions:
+                if a[0] == "assign" and a[2] is True and init.get(a[1]) is False:
+                    q = a[1]
+    if q is not None:
+        for p in run("\\", **{q: True}):
+            for a in p.actions:
+                if a[0] == "assign" and a[2] is True and init.get(a[1]) is False and a[1] != q:
+                    e = a[1]
+    if q is None or e is None:
+        return None
+    return pf, m, body, chv, init, q, e, loop
+
+
 def check_reader(prog: Program, res: Results, rid: str) -> None:
     r = res.rules[rid]
-    pf = prog.func("_parse_npath")
-    res.analysed_functions.add(pf.key)
-    # escape arm: `if escape:` inside `if in_quotes:` inside the for loop
-    esc_if = None
-    for n in walk_no_nested(pf.node):
-        if isinstance(n, ast.If) and isinstance(n.test, ast.Name) and any(isinstance(s, ast.If) and "== 'n'" in norm(s.test) for s in n.body):
-            esc_if = n
-    if esc_if is None:
-        res.unclass("_parse_npath: escape arm not found")
+    sc = npath_scanner(prog)
+    if sc is None:
+        res.unclass("_parse_npath: the quoted/escape state flags of the scanning loop were not recognised")
         return
-    chain = next(s for s in esc_if.body if isinstance(s, ast.If))
-    table = {}
-    default = None
-    cur = chain
-    while True:
-        t = cur.test
-        apps = [c for s in cur.body for c in ast.walk(s) if isinstance(c, ast.Call) and callee(c) == "append"]
-        if isinstance(t, ast.Compare) and isinstance(t.ops[0], ast.Eq) and isinstance(t.comparators[0], ast.Constant) and len(apps) == 1 \
-                and isinstance(apps[0].args[0], ast.Constant):
-            table[t.comparators[0].value] = apps[0].args[0].value
-        elif isinstance(t, ast.Compare) and isinstance(t.ops[0], ast.In) and isinstance(t.comparators[0], (ast.Tuple, ast.List, ast.Set)) and len(apps) == 1 \
-                and isinstance(apps[0].args[0], ast.Name):
-            for e in t.comparators[0].elts:
-                if isinstance(e, ast.Constant):
-                    table[e.value] = e.value
-        if len(cur.orelse) == 1 and isinstance(cur.orelse[0], ast.If):
-            cur = cur.orelse[0]
-            continue
-        default = cur.orelse
-        break
-    want = {"n": "\n", "r": "\r", "t": "\t", '"': '"', "\\": "\\"}
+    pf, m, body, chv, init, q, e, loop = sc
+    res.analysed_functions.add(pf.key)
+    want = {"n": "\n", "r": "\r", "t": "\t", '"': '"', "\\": "\\", "x": "\\x", "$": "\\$"}
     r.instances += len(want)
+    cleared = True
     for k, v in want.items():
-        ok = table.get(k) == v
-        r.ob(ok, {"npath_escape": "\\" + k, "decodes_to": repr(table.get(k))})
+        paths = m.run(body, {**init, chv: k, q: True, e: True})
+        outs = {tuple(_pieces(p)) for p in paths}
+        got = outs.pop() if len(outs) == 1 else None
+        ok = got == (v,)
+        if k in ("x", "$"):
+            if not ok:
+                r.ob(False, {"npath_escape_default": repr(got)})
+                res.add(rid, ("_parse_npath", "escape", "default"), pf.loc(loop),
+                        f"the NPath reader decodes an unknown escape \\{k} to {got!r}, expected the two characters unchanged")
+            continue
+        r.ob(ok, {"npath_escape": "\\" + k, "decodes_to": repr(got)})
         if not ok:
-            res.add(rid, ("_parse_npath", "escape", "\\" + k), pf.loc(chain),
-                    f"the NPath reader decodes \\{k} to {table.get(k)!r}, documented {v!r}")
-    # the escape flag is cleared after one character
-    clears = [s for s in esc_if.body if isinstance(s, ast.Assign) and norm(s) == f"{esc_if.test.id} = False"]
-    ok = bool(clears)
-    r.ob(ok, {"escape_flag_cleared": ok})
-    if not ok:
-        res.add(rid, ("_parse_npath", "escape flag not cleared"), pf.loc(esc_if),
+            res.add(rid, ("_parse_npath", "escape", "\\" + k), pf.loc(loop),
+                    f"the NPath reader decodes \\{k} to {got[0] if got else None!r}, documented {v!r}")
+        if not all(False in p.assigned(e) or p.env.get(e) is False for p in paths):
+            cleared = False
+    r.ob(cleared, {"escape_flag_cleared": cleared})
+    if not cleared:
+        res.add(rid, ("_parse_npath", "escape flag not cleared"), pf.loc(loop),
                 "the escape flag is not cleared after the escaped character")
 
 
@@ -500,17 +572,28 @@ def check_segment_state(prog: Program, res: Results) -> None:
             res.add("R-C12-4", ("_parse_npath.finalize_segment", "state not reset", var), fin.loc(),
                     f"`{var}` is per-segment state (read by finalize_segment, written by the scanner) but is not reset on "
                     f"every normal exit of finalize_segment: it leaks into the next segment of the same path")
-    # dots split only outside quotes: the `ch == "."` test must be dominated by the false edge of `if in_quotes`
-    lcfg = CFG(pf.node)
-    chv = loop.target.id if isinstance(loop.target, ast.Name) else "ch"
-    dot_tests = [n for n in lcfg.nodes if n.kind == "test" and norm(n.ast) == f"{chv} == '.'"]
-    quote_tests = [n for n in lcfg.nodes if n.kind == "test" and isinstance(n.ast, ast.Name) and getattr(n, "stmt", None) in loop.body]
-    r.instances += len(dot_tests)
-    for d in dot_tests:
-        ok = bool(quote_tests) and lcfg.all_paths_pass(d, cut_edges=[(q, False) for q in quote_tests])
-        r.ob(ok, {"dot_split": "outside quotes only"})
+    # dots split only outside quotes: the scanner specialised to (`.`, quoted state) never finalises a segment
+    sc = npath_scanner(prog)
+    if sc is None:
+        res.unclass("_parse_npath: the quoted/escape state flags of the scanning loop were not recognised")
+        return
+    _pf, m, body, chv, init, quote_var, esc_var, _loop = sc
+    fin_name = fin.node.name
+
+    def finalises(path):
+        return any(a[0] == "call" and a[1] == fin_name for a in path.actions)
+
+    outside = [p_ for p_ in m.run(body, {**init, chv: "."}) if p_.exit != "raise"]
+    if not outside or not all(finalises(p_) for p_ in outside):
+        res.unclass("_parse_npath: a `.` outside quotes does not finalise the segment on every path — scanner shape not classifiable")
+        return
+    r.instances += 2
+    for esc_state in (False, True):
+        inside = m.run(body, {**init, chv: ".", quote_var: True, esc_var: esc_state})
+        ok = not any(finalises(p_) for p_ in inside)
+        r.ob(ok, {"dot_split": "outside quotes only", "escape_pending": esc_state})
         if not ok:
-            res.add("R-C12-4", ("_parse_npath", "dot split inside quotes"), pf.loc(d.ast),
+            res.add("R-C12-4", ("_parse_npath", "dot split inside quotes"), pf.loc(loop),
                     "the `.` separator test is reachable while in_quotes is true: a quoted name containing a dot would be split")
     # malformed input raises ValueError
     for rs in [n for n in ast.walk(pf.node) if isinstance(n, ast.Raise)]:
@@ -520,15 +603,12 @@ def check_segment_state(prog: Program, res: Results) -> None:
         if not ok:
             res.add("R-C12-4", ("_parse_npath", "raise type", alpha(rs, pf.node)[:60]), pf.loc(rs),
                     "a malformed path is rejected with something other than ValueError")
-    quote_var = quote_tests[0].ast.id if quote_tests else "in_quotes"
-    esc_var = None
-    for n in ast.walk(loop):
-        if isinstance(n, ast.If) and isinstance(n.test, ast.Name) and any(isinstance(s_, ast.If) and "== 'n'" in norm(s_.test) for s_ in n.body):
-            esc_var = n.test.id
-    need = {"dangling escape": esc_var or "escape", "unterminated": quote_var}
-    for what, var in need.items():
-        ok = any(isinstance(n, ast.If) and isinstance(n.test, ast.Name) and n.test.id == var and n in pf.node.body
-                 and any(isinstance(s, ast.Raise) for s in n.body) for n in pf.node.body)
+    # after the scan, a pending escape or an open quote is rejected (the statements after the loop, specialised to that state)
+    after = pf.node.body[pf.node.body.index(loop) + 1:] if loop in pf.node.body else []
+    need = {"dangling escape": {esc_var: True, quote_var: True}, "unterminated": {esc_var: False, quote_var: True}}
+    for what, st in need.items():
+        paths = m.run(after, {**init, **st})
+        ok = bool(paths) and all(p_.exit == "raise" for p_ in paths)
         r.ob(ok, {"end_of_input_check": what})
         if not ok:
             res.add("R-C12-4", ("_parse_npath", "end check", what), pf.loc(),
@@ -580,10 +660,14 @@ def check_escape_machines(prog: Program, res: Results) -> None:
         if f.module.endswith("color.py"):
             continue
         for n in walk_no_nested(f.node):
-            if not (isinstance(n, ast.If) and isinstance(n.test, ast.Name)):
+            if not isinstance(n, ast.If):
                 continue
-            q = n.test.id
-            body = n.body
+            if isinstance(n.test, ast.Name):
+                q, body = n.test.id, n.body
+            elif isinstance(n.test, ast.UnaryOp) and isinstance(n.test.op, ast.Not) and isinstance(n.test.operand, ast.Name) and n.orelse:
+                q, body = n.test.operand.id, n.orelse  # `if not in_quotes: … else: <quoted state>`
+            else:
+                continue
             consts = {}
             for x in ast.walk(ast.Module(body=body, type_ignores=[])):
                 if isinstance(x, ast.Assign) and len(x.targets) == 1 and isinstance(x.targets[0], ast.Name) and isinstance(x.value, ast.Constant) \
